@@ -95,6 +95,7 @@ type c18fn struct {
 	recov        *irVar
 	siteID       map[*ast.AssignStmt]int // CacheContext() assignment -> cache id (allocated in source order at prescan)
 	firstSite    map[*ast.Object]int     // cache / commit variable -> id of its first CacheContext() site
+	assigns      map[*ast.Object]int     // number of assignment statements that (re)define the variable
 }
 
 func (p *c18prog) varOf(id *ast.Ident) *irVar {
@@ -174,6 +175,11 @@ func (f *c18fn) prescan(n ast.Node) {
 				}
 			}
 		case *ast.AssignStmt:
+			for _, l := range x.Lhs {
+				if id, ok := l.(*ast.Ident); ok && id.Obj != nil {
+					f.assigns[id.Obj]++
+				}
+			}
 			if len(x.Rhs) == 1 && len(x.Lhs) == 2 {
 				if ce, ok := x.Rhs[0].(*ast.CallExpr); ok {
 					if sel, ok := ce.Fun.(*ast.SelectorExpr); ok && sel.Sel.Name == "CacheContext" {
@@ -246,7 +252,7 @@ func (p *c18prog) leafName(name string, pos token.Pos) string {
 
 func (p *c18prog) newFn(rel string) *c18fn {
 	return &c18fn{p: p, rel: rel, ctxKind: map[*ast.Object]string{}, ctxNames: map[string]string{}, commitOf: map[*ast.Object]int{},
-		cacheVarObjs: map[*ast.Object]bool{}, commitObjs: map[*ast.Object]bool{}, nilTested: map[*ast.Object]bool{},
+		cacheVarObjs: map[*ast.Object]bool{}, commitObjs: map[*ast.Object]bool{}, nilTested: map[*ast.Object]bool{}, assigns: map[*ast.Object]int{},
 		ackVars: map[*ast.Object]bool{}, respVars: map[*ast.Object]bool{}, siteID: map[*ast.AssignStmt]int{}, firstSite: map[*ast.Object]int{}}
 }
 
@@ -665,6 +671,19 @@ func (f *c18fn) cond(e ast.Expr) *irCond {
 				if id, ok := pr[0].(*ast.Ident); ok {
 					if nl, ok := pr[1].(*ast.Ident); ok && nl.Name == "nil" && f.isTracked(id) && (id.Obj == nil || !f.ackVars[id.Obj]) {
 						c := &irCond{K: "ok", V: p.varOf(id)}
+						if x.Op == token.NEQ {
+							return &irCond{K: "not", A: c}
+						}
+						return c
+					}
+				}
+				// `v == nil` / `v != nil` for a variable whose nil test is NOT its success test (an acknowledgement: nil =
+				// asynchronous): ONE uninterpreted condition per variable object, `!=` as its negation — the two tests of core
+				// RecvPacket (`ack == nil || ack.Success()`, `ack != nil`) are complementary by construction.  Only when the
+				// variable is assigned exactly once (otherwise two tests may see two values: numbered per position as before).
+				if id, ok := pr[0].(*ast.Ident); ok && id.Obj != nil && f.ackVars[id.Obj] && f.assigns[id.Obj] == 1 {
+					if nl, ok := pr[1].(*ast.Ident); ok && nl.Name == "nil" {
+						c := f.other(id.Name+" == nil", id.Obj.Pos())
 						if x.Op == token.NEQ {
 							return &irCond{K: "not", A: c}
 						}
